@@ -86,7 +86,13 @@ void harness(void)
 {
 	sym_load();
 	ASSUME(in.allday == 0 || in.allday == 1);
+#if defined FIX_ALLDAY
+	/* date vs date-time is a per-obligation constant */
+	ASSUME(in.allday == FIX_ALLDAY);
+	const bool ad = FIX_ALLDAY;
+#else
 	const bool ad = in.allday;
+#endif
 	ASSUME(in.ne >= 0 && in.ne <= NE && in.nx >= 1 && in.nx <= NX);
 	arr_init(&E, (unsigned)in.ne);
 	arr_init(&X, (unsigned)in.nx);
